@@ -247,6 +247,40 @@ def generate():
                 return [sx.lit(x) for x in np.ravel(m.logpdf(pars, data))]
             ltree = sx.paths(run_lp, positive=syms)
             dvars = [f'd{i}' for i in range(nb)] + [f'a{i}' for i in range(info['naux'])]
+            # ---- numeric self-check of the two translations against the real model on random numbers (real numpy backend)
+            mgr.this.state['default'] = sd; mgr.this.state['current'] = sc; nbmod.numpy_backend = orig_cls
+            try:
+                def numeric(env):
+                    def conv(x):
+                        if isinstance(x, str) and re.fullmatch(r'[a-z]+[0-9]*', x): return env[x]
+                        if isinstance(x, list): return [conv(y) for y in x]
+                        if isinstance(x, dict): return {k: conv(v) for k, v in x.items()}
+                        return x
+                    sp = {'channels': [{'name': c['name'], 'samples': [{'name': s_['name'], 'data': conv(s_['data']), 'modifiers': [{'name': m_['name'], 'type': m_['type'], 'data': conv(m_['data'])} for m_ in s_['modifiers']]} for s_ in c['samples']]} for c in spec['channels']]}
+                    if 'parameters' in spec: sp['parameters'] = spec['parameters']
+                    kw = {'modifier_settings': spec['settings']} if spec.get('settings') else {}
+                    return pyhf.Model(sp, poi_name='mu', validate=False, **kw)
+
+                def sampler(rng):
+                    env = {}
+                    for x in syms:
+                        base = rng.uniform(20, 80)
+                        env[x] = base
+                    for x in syms:      # variations / uncertainties relative to a nominal-size number
+                        if x[0] in 'eu' and x not in ('u',): env[x] = rng.uniform(1, 8)
+                        if x.endswith('lo') or x.endswith('hi'): env[x] = rng.uniform(0.7, 1.3)
+                    for v_, n_ in zip(parvars, names):
+                        env[v_] = rng.choice([rng.uniform(-2.5, 2.5), 1.0, -1.0, 0.0]) if re.match(r'sys', n_) else rng.uniform(0.5, 1.5)
+                    for d_ in dvars: env[d_] = rng.uniform(0.5, 90.0)
+                    return env
+                from scipy.special import xlogy, gammaln
+                funcs = {'lpois': lambda n_, lam: float(xlogy(n_, lam) - lam - gammaln(n_ + 1.0)),
+                         'lnorm': lambda x_, mu_, sg_: float(-np.log(sg_ * np.sqrt(2 * np.pi)) - ((x_ - mu_) / (np.sqrt(2) * sg_)) ** 2)}
+                sx.selfcheck(f'{shape}/expected_actualdata', tree, None, sampler, lambda env: numeric(env).expected_actualdata(np.asarray([env[v_] for v_ in parvars])))
+                sx.selfcheck(f'{shape}/logpdf', ltree, None, sampler,
+                             lambda env: numeric(env).logpdf(np.asarray([env[v_] for v_ in parvars]), np.asarray([env[d_] for d_ in dvars])), funcs=funcs, rtol=1e-8)
+            finally:
+                mgr.this.state['default'] = (sb, sd[1]); mgr.this.state['current'] = (sb, sc[1]); nbmod.numpy_backend = lambda *a, **k: sb
             lsig = ('(P : Prim K) (lpois : K → K → K) (lnorm : K → K → K → K) (' + ' '.join(syms) + ' : K) (' + ' '.join(parvars) + ' : K) ('
                     + ' '.join(dvars) + ' : K)')
             out.append(f'/-- `Model.logpdf(pars, data)` of {shape}: main data d, auxiliary data a; `lpois`, `lnorm` = the two log-density primitives -/')
